@@ -204,12 +204,12 @@ public:
       const Scalar wz  = a_in.z();
       const Scalar wz2 = wz * wz;
 
-      if (wz2 < Scalar(eps2)) {
+      if (wz2 < Scalar(eps2_hess)) {
         return {
-          Scalar(0.5) - wz2 / 24,
-          Scalar(1. / 6) - wz2 / 120,
-          -wz / 48,
-          -wz / 60,
+          Scalar(0.5) - wz2 / 24 + wz2 * wz2 / 720,
+          Scalar(1. / 6) - wz2 / 120 + wz2 * wz2 / 5040,
+          -wz / 12 + wz * wz2 / 180,
+          -wz / 60 + wz * wz2 / 1260,
         };
       } else {
         const Scalar sTh = sin(wz);
@@ -250,10 +250,10 @@ public:
       const Scalar wz  = a_in.z();
       const Scalar wz2 = wz * wz;
 
-      if (wz2 < Scalar(eps2)) {
+      if (wz2 < Scalar(eps2_hess)) {
         return {
-          Scalar(1) / Scalar(12) + wz2 / Scalar(720),
-          Scalar(1) / Scalar(360),
+          Scalar(1) / Scalar(12) + wz2 / Scalar(720) + wz2 * wz2 / Scalar(30240),
+          wz / Scalar(360) + wz * wz2 / Scalar(7560),
         };
       } else {
         const Scalar sTh = sin(wz);
